@@ -448,7 +448,41 @@ class C03(Prop):
         ops.append([['rebind_paths', entries], None])
     return {'kind': kind, 'spec': spec, 'partial': False, 'items': items, 'ops': ops}
 
+  def gen_typed_into_union(self, rng, g, kind):
+    """An already typed pg.List (or pg.Dict) bound to a WIDER spec, written into a Union[container, Str]
+    field: the Union hands it to the candidate of its type, whose compatibility verdict decides."""
+    lo = rng.choice([0, 0, 1, -1])
+    mx = rng.choice([1, 2, 2, 3])
+    if rng.chance(0.75):
+      inner = {'k': 'list', 'elem': {'k': 'int', 'lo': lo, 'hi': None, 'n': 0}, 'mn': None, 'mx': mx, 'n': 0}
+      wide = {'k': 'list', 'elem': {'k': 'int', 'lo': None, 'hi': None, 'n': 0}, 'mn': None,
+              'mx': rng.choice([None, mx + 2]), 'n': 0}
+      contents = [['l', [['i', lo - 1]]], ['l', [['i', lo + 1] for _ in range(mx + 1)]], ['l', [['i', lo]]], ['l', []]]
+      start = ['l', [['i', lo]]]
+    else:
+      inner = {'k': 'dict', 'fields': [[['c', 'q'], {'k': 'int', 'lo': lo, 'hi': None, 'n': 0}]], 'n': 0}
+      wide = {'k': 'dict', 'fields': [[['c', 'q'], {'k': 'int', 'lo': None, 'hi': None, 'n': 0}]], 'n': 0}
+      contents = [['d', [['q', ['i', lo - 1]]]], ['d', [['q', ['i', lo + 2]]]]]
+      start = ['d', [['q', ['i', lo]]]]
+    fd = {'k': 'union', 'cands': [inner, {'k': 'str', 'rx': None, 'n': 0}], 'n': 0}
+    if rng.chance(0.3):
+      fd['cands'].reverse()
+    spec = {'k': 'dict', 'fields': [[['c', 'u'], fd]], 'n': 0}
+    ops = []
+    for _ in range(rng.randint(1, 3)):
+      a = ['typed', wide, False, copy.deepcopy(rng.choice(contents))]
+      c = rng.choice(['setattr' if kind == 'object' else 'setitem', 'rebind', 'rebind' if kind == 'object' else 'update'])
+      if c in ('rebind', 'update'):
+        ops.append([[c, [['u', a]]], None])
+      else:
+        ops.append([[c, 'u', a], None])
+      if rng.chance(0.3):
+        ops.append([[('setattr' if kind == 'object' else 'setitem'), 'u', ['s', 'ab']], None])
+    return {'kind': kind, 'spec': spec, 'partial': False, 'items': [['u', start if rng.chance(0.6) else ['s', 'a']]], 'ops': ops}
+
   def gen_dict(self, rng, g, kind):
+    if rng.chance(0.05):
+      return self.gen_typed_into_union(rng, g, kind)
     if rng.chance(0.3):
       return self.gen_nested(rng, g, kind)
     while True:
@@ -952,6 +986,12 @@ class C03(Prop):
           add('required-field-missing:%s:%s' % (kind, op[0]),
               'after %s (never partial) a required field is missing: %s' % (json.dumps(op), json.dumps(s['items'])))
       bad_before = bad
+      if (kind == 'list' and op[0] in ('extend', 'iadd', 'extend_iter', 'iadd_iter') and s['err'] == 'ValueError'
+          and s['items'] != prev and self.all_elements_ok(case, op[1])):
+        # every offered element is acceptable, so the call was refused for the size: nothing may be stored
+        add('rejected-write-stored:list:' + op[0],
+            '%s raised %s for the size (every offered element is acceptable) but the list changed from %s to %s' % (
+                json.dumps(op), s['err'], json.dumps(prev), json.dumps(s['items'])))
       if s['err'] in SCHEMA_ERRS + ('WritePermissionError',):
         batch = op[0] in ('extend', 'iadd', 'extend_iter', 'iadd_iter', 'imul', 'setslice', 'rebind', 'update', 'ior', 'rebind_paths')
         if not batch and s['items'] != prev:
@@ -959,6 +999,21 @@ class C03(Prop):
               '%s raised %s but the %s changed from %s to %s' % (
                   json.dumps(op), s['err'], kind, json.dumps(prev), json.dumps(s['items'])))
       prev = s['items']
+
+  def all_elements_ok(self, case, values):
+    try:
+      elem = tv.build(case['spec']).element.value
+    except Exception:   # pylint: disable=broad-except
+      return False
+    return all(v != ['M'] and member_ok(elem, canon(self.norm_elem(elem, v)), False) for v in values)
+
+  @staticmethod
+  def norm_elem(elem, v):
+    """The element as `apply` stores it (int -> float conversion), so that member_ok compares like with like."""
+    try:
+      return tv.from_py(elem.apply(tv.to_py(v)))
+    except (TypeError, ValueError, KeyError):
+      return v
 
   def typed_cause(self, case, op, step):
     """If the violating member was written as an already typed container whose spec the field
